@@ -201,7 +201,8 @@ theorem C13_postings_preimage_fact :
 
 theorem C13_matcher_key_fact :
     Thanos.Facts.matcherKeyWrites =
-      ["nameLen", "':'", "m.GetName()", "typeStr", "':'", "m.GetValue()"] := by
+      ["nameLen", "':'", "m.GetName()", "typeStr", "':'", "m.GetValue()"] ∧
+    Thanos.Facts.matcherKeyNameLen = "strconv.Itoa(len(m.GetName()))" := by
   decide
 
 /-! ### non-vacuity -/
